@@ -94,6 +94,9 @@ where
         let mut txs: Vec<DistributedReceiver<T, Codec, BUFFER>> = Vec::new();
         let mut first = true;
 
+        // Value whose chosen subscriber went away before the value could be handed to it.
+        let mut held: Option<T> = None;
+
         loop {
             if txs.is_empty() && !(wait_on_empty || first) {
                 return;
@@ -112,17 +115,28 @@ where
                             txs.swap_remove(pos);
                         }
                         Some(permit) => {
-                            let value = match rx.recv().await {
-                                Ok(Some(value)) => value,
-                                // An item that could not be received does not end the distribution
-                                // of the items that follow it.
-                                Err(err) if !err.is_final() => {
-                                    tracing::warn!(%err, "receiving item for distribution failed");
-                                    return true;
-                                }
-                                _ => return false,
+                            let value = match held.take() {
+                                Some(value) => value,
+                                None => match rx.recv().await {
+                                    Ok(Some(value)) => value,
+                                    // An item that could not be received does not end the distribution
+                                    // of the items that follow it.
+                                    Err(err) if !err.is_final() => {
+                                        tracing::warn!(%err, "receiving item for distribution failed");
+                                        return true;
+                                    }
+                                    _ => return false,
+                                },
                             };
-                            permit.send(value);
+
+                            // The chosen subscriber may have gone away while the value was awaited:
+                            // keep the value for another subscriber.
+                            if txs[pos].tx.is_closed() {
+                                held = Some(value);
+                                txs.swap_remove(pos);
+                            } else {
+                                permit.send(value);
+                            }
                         }
                     }
 
